@@ -22,6 +22,7 @@
 import TephraProofs.Nav
 import TephraProofs.NavColumns
 import TephraModel.Fam.Nav
+import TephraProps.C20
 
 namespace Tephra.Props
 open Tephra Tephra.Spec
@@ -252,5 +253,29 @@ example :
   have := C19_iter_columns (m := m) (pre := []) (suf := t) (by decide) hwf (by decide) 12
   rw [hspec] at this
   simpa using this
+
+/-- OFFSET SOURCES (the `SourceText` wrappers translate by the start offset).  On a source that
+does not start at the origin — a window `⟨wmid, m, canon m wa⟩` onto `wa ++ wmid ++ wz`, however it
+was obtained (`clipped`, a window of a window, `with_start_position`: `C20_window_of_window`) — the
+six navigation methods at an aligned position answer with the canonical positions of the document,
+restricted to the window: the statement of C19 for the wrappers.  (Bundles `C20_window_nav`,
+`C20_window_prev`, `C20_window_prevLineEnd`; the driver compares exactly these six fields of the
+`window` family under C19.) -/
+theorem C19_offset_sources (m : Metrics) (_htab : 1 ≤ m.tab) (wa pre' suf' wz : Text)
+    (hwf : Text.WF (wa ++ (pre' ++ suf') ++ wz))
+    (hw1 : aligned m wa (pre' ++ suf' ++ wz) = true)
+    (hw2 : aligned m (wa ++ (pre' ++ suf')) wz = true)
+    (hap : aligned m (wa ++ pre') (suf' ++ wz) = true)
+    (sub : Span) (o : Fam.Window.Obs) (sa smid sz : Text)
+    (ho : Fam.Window.model m (wa ++ (pre' ++ suf') ++ wz)
+      ⟨canon m wa, canon m (wa ++ (pre' ++ suf'))⟩ (canon m (wa ++ pre')) sub = .ok o) :
+    let S := Fam.Window.ofSpec
+      (Spec.windowSpec m wa (pre' ++ suf') wz (wa ++ pre') (suf' ++ wz) sa smid sz)
+    o.next = S.next ∧ o.prev = S.prev ∧ o.lineStart = S.lineStart ∧ o.lineEnd = S.lineEnd ∧
+      o.prevLineEnd = S.prevLineEnd ∧ o.nextLineStart = S.nextLineStart := by
+  have hn := C20_window_nav m wa pre' suf' wz hwf hw1 hw2 hap sub o sa smid sz ho
+  have hp := C20_window_prev m wa pre' suf' wz hwf hw1 hw2 sub o sa smid sz ho
+  have hl := C20_window_prevLineEnd m wa pre' suf' wz hwf hw1 hw2 sub o sa smid sz ho
+  exact ⟨hn.1, hp, hn.2.1, hn.2.2.1, hl, hn.2.2.2⟩
 
 end Tephra.Props
